@@ -315,6 +315,10 @@ func (e *exec) complete(t model.TypeRef, raw interface{}, g *group, path []inter
 	td := e.s.Type(t.Name)
 	switch td.Kind {
 	case model.KScalar, model.KEnum:
+		if LeafRaises(raw) {
+			e.err(path, "leafpanic") // the serializer raised: a field error at this position
+			return nil, false
+		}
 		v, ok := SerializeLeaf(e.s, t.Name, raw)
 		if !ok {
 			return nil, true // no legal serialisation: null, no error (DESIGN §3.4)
